@@ -124,9 +124,23 @@ def roundtrip_records(ck, m, record):
     return out
 
 
+import re
+_TITLE_AFTER_DEF = re.compile(r'^[> ]*\[[^\]\n]+\]: [^\n]*\n[> ]*[("\']', re.M)
+
+
 def reflow_documents(ck, m):
-    """C10 hook: documents with word tables for the reflow law (the DocGen documents do not carry word tables yet)."""
-    return []
+    """C10 hook: DocGen documents (all block kinds, containers, definitions, tables, HTML blocks).  They carry no word table,
+    so only the meaning, idempotence and protected-block clauses of the reflow law are judged on them (W = -1 marks that)."""
+    docs = concretise(simulate(ck, 'DocGenSim.cfg', 4000 if ck.tier == 'quick' else 60000))
+    out = []
+    for d in dedupe(docs):
+        if set(d['tags']) & {'setext-in-quote', 'lazy-after-indented-quote-content', 'table-on-marker-line', 'item-begins-with-blank-line'}:
+            continue          # documents of a recorded finding (parser or Markdown renderer) do not mean what they say
+        if _TITLE_AFTER_DEF.search(d['src']):
+            continue          # a first word that reads as a link title once it stands alone on the line after a definition: the
+                              # property sets aside words that mean something at the start of a line
+        out.append({'src': d['src'], 'words': [], 'hard': [], 'W': -1})
+    return out
 
 
 _texts_cache = {}
